@@ -2,7 +2,7 @@
 from .scn import Scenario, h
 
 SECTIONS = [b"A", b"[A]", b"B", b"", None, b"[B]", b"[]", b"[A", b"C]", b"AB", b"[AB]", b"a"]
-KEYS = [b"x", b"y", b"z", b"w", b"", None, b"xy", b"X"]
+KEYS = [b"x", b"y", b"z", b"w", b"", None, b"xy", b"X", b"x ", b"y\t", b" x"]   # the last three: blanks around a key handed to a setter or getter are part of the key
 TEXTS = [b"1", b"v", b"", b"Yes Please", b"TRUE", b"no", b"0x10", b"-5", b"4294967296", b" padded ", b"a\nb", b'"q"',
          b"_none_", b"p-", b"010", b"12abc", None]
 INTS = ["0", "1", "-1", "2147483647", "-2147483648", "42"]
